@@ -842,6 +842,109 @@ def _mk_closed():
 _mk_closed()
 
 
+class _ClosedSystemRows(AxisOb):
+    """Closed systems as the IMPLICIT solver sees them: in the system solvePDE assembles the ghost cells are unknowns
+    tied to the interior by the rows of boundaryConditionsTerm (not by the reported ghost values).  For ANY full field
+    that satisfies the two traced boundary rows of a tangential line, the boundary-face fluxes of the flux form vanish
+    (default no-flux rows, zero wall-normal velocity) resp. cancel between the two identified faces (periodic rows,
+    same coefficient on the identified faces) -- on arbitrary spacing, also with unequal end cells."""
+    props = ('C01',)
+    grids = FLUX_GRIDS
+    kind = 'noflux'
+    flux_cls = None
+
+    def parts(self, w):
+        return [a for a in range(w.nd) if not (self.kind == 'periodic' and GRIDS[w.grid]['radial'] and a == 0)]
+
+    def setup(self, w):
+        ff = self.flux_cls()
+        self._ff = ff
+        if not w.symbolic and self.kind == 'periodic':
+            w.facevar(ff.coef)          # draws the random coefficient values; then identify the two boundary faces
+            for a in range(w.nd):
+                arr = w.src.values[ff.coef + AX[a]]
+                sl_lo = [slice(None)] * w.nd
+                sl_hi = [slice(None)] * w.nd
+                sl_lo[a], sl_hi[a] = 0, -1
+                arr[tuple(sl_hi)] = arr[tuple(sl_lo)]
+        k = w.facevar(ff.coef)
+        phi = w.rawcell('phi')
+        rows = {}
+        for a in self.parts(w):
+            BC = bnd.BoundaryConditions(w.mesh)       # default: no-flux (a=1, b=0, c=0) on every face
+            if self.kind == 'periodic':
+                getattr(BC, ('left', 'bottom', 'back')[a]).periodic = True
+            rows[a] = bnd.boundaryConditionsTerm(BC)
+        return dict(k=k, phi=phi._value, rowsM={a: r[0] for a, r in rows.items()}, rowsR={a: r[1] for a, r in rows.items()})
+
+    def claims(self, w, S, P, a):
+        ff = self._ff
+        Plo, Phi = list(P), list(P)
+        Plo[a], Phi[a] = 1, w.N[a]
+        Glo, Ghi = list(P), list(P)
+        Glo[a], Ghi[a] = 0, w.N[a] + 1
+        Plo, Phi, Glo, Ghi = tuple(Plo), tuple(Phi), tuple(Glo), tuple(Ghi)
+        M, RHS = S['rowsM'][a], S['rowsR'][a]
+        phi = S['phi']
+        S2 = dict(S)
+        lab = ('wall_fluxes_vanish_under_solver_rows[%s]' if self.kind == 'noflux' else 'periodic_fluxes_cancel_under_solver_rows[%s]') % AX[a]
+        klo = ff.kf(w, S2, a, Plo, 0)
+        khi = ff.kf(w, S2, a, Phi, 1)
+        if w.symbolic:
+            rlo = w.apply(M, phi, Glo) - w.vec(RHS, Glo)
+            rhi = w.apply(M, phi, Ghi) - w.vec(RHS, Ghi)
+            Flo = face_area(w, a, Plo, 0) * ff.flux(w, S2, a, Plo, 0)
+            Fhi = face_area(w, a, Phi, 1) * ff.flux(w, S2, a, Phi, 1)
+            hyp = (R.of(rlo) == 0) & (R.of(rhi) == 0)
+            if self.kind == 'noflux':
+                if ff.coef == 'u':
+                    hyp = hyp & (R.of(klo) == 0) & (R.of(khi) == 0)
+                return [(lab, hyp.implies((R.of(Flo) == 0) & (R.of(Fhi) == 0)))]
+            hyp = hyp & (R.of(klo) == R.of(khi))
+            return [(lab, hyp.implies(R.of(Flo) == R.of(Fhi)))]
+        # native: make the hypothesis true on this tangential line by solving the two row equations for the two ghost
+        # values (the rows are affine in them), unless the given data (a replayed counter-model) already satisfy them
+        if self.kind == 'noflux' and ff.coef == 'u':
+            return []        # random velocities are not zero at the wall
+        if abs(klo - khi) > 1e-12 and self.kind == 'periodic':
+            return []
+        np_ = T.real_np
+        phi = np_.array(phi, dtype=float)
+
+        def resid(glo, ghi):
+            phi[Glo], phi[Ghi] = glo, ghi
+            return np_.array([w.apply(M, phi, Glo) - w.vec(RHS, Glo), w.apply(M, phi, Ghi) - w.vec(RHS, Ghi)])
+        g0 = (float(phi[Glo]), float(phi[Ghi]))
+        r0 = resid(*g0)
+        if max(abs(r0)) > 1e-9:
+            z = resid(0.0, 0.0)
+            A = np_.column_stack([resid(1.0, 0.0) - z, resid(0.0, 1.0) - z])
+            if abs(np_.linalg.det(A)) < 1e-12:
+                return []
+            g = np_.linalg.solve(A, -z)
+            resid(float(g[0]), float(g[1]))
+        S2['phi'] = phi
+        Flo = face_area(w, a, Plo, 0) * ff.flux(w, S2, a, Plo, 0)
+        Fhi = face_area(w, a, Phi, 1) * ff.flux(w, S2, a, Phi, 1)
+        w.scale = 1e3
+        if self.kind == 'noflux':
+            return [(lab, w.eq(Flo, 0.0) and w.eq(Fhi, 0.0))]
+        return [(lab, w.eq(Flo, Fhi))]
+
+
+def _mk_closed_rows():
+    for nm, fc in (('diffusionTerm', DiffFluxForm), ('convectionTerm', ConvFluxForm), ('convectionUpwindTerm', UpwindFluxForm)):
+        for kind in ('noflux', 'periodic'):
+            cn = 'ClosedRows_%s_%s' % (nm, kind)
+            grids = tuple(g for g in FLUX_GRIDS if not (kind == 'periodic' and GRIDS[g]['radial'] and GRIDS[g]['nd'] == 1))
+            cls = type(cn, (_ClosedSystemRows,), dict(name='%s/closed_system_rows(%s)' % (nm, kind), kind=kind, flux_cls=fc, grids=grids))
+            cls.__module__ = __name__
+            globals()[cn] = cls
+
+
+_mk_closed_rows()
+
+
 # ------------------------------------------------------------------------------------------------
 #  M-matrix sign structure of  S = -diffusion + upwind  (per axis)                          (C07)
 
